@@ -12,6 +12,10 @@ CONSTANTS
   PhaseMaps <- NoCatalog
   ReKVals <- NoCatalog
   MaxHist = 0
+  NameMap <- TrNames
+  PForms <- NoCatalog
+  Containers <- NoCatalog
+  OvKVals <- TrOv
   Configs <- NoConfigs
   Comp <- TraceComp
 INVARIANT Verdict
